@@ -1,0 +1,53 @@
+//! Instrumentation used by the external verification harness.
+//! Compiled only with the cargo feature `zkryptium_verif`; with the feature off
+//! nothing in this file exists and no call site refers to it.
+
+use std::cell::{Cell, RefCell};
+
+thread_local! {
+    static GENERATOR_BUDGET: Cell<Option<u64>> = Cell::new(None);
+    static GENERATORS_CREATED: Cell<u64> = Cell::new(0);
+    static LAST_MODULUS_FACTORS: RefCell<Option<(String, String)>> = RefCell::new(None);
+}
+
+/// Set (or clear with `None`) the number of generators the current thread may still create.
+pub fn set_generator_budget(budget: Option<u64>) {
+    GENERATOR_BUDGET.with(|b| b.set(budget));
+}
+
+/// Number of generators created by the current thread since the last reset.
+pub fn generators_created() -> u64 {
+    GENERATORS_CREATED.with(|c| c.get())
+}
+
+/// Reset the per-thread generator counter.
+pub fn reset_generators_created() {
+    GENERATORS_CREATED.with(|c| c.set(0));
+}
+
+/// Called by `create_generators` before any work is done.
+pub fn charge_generators(count: usize) {
+    let count = count as u64;
+    GENERATOR_BUDGET.with(|b| {
+        if let Some(budget) = b.get() {
+            if count > budget {
+                panic!(
+                    "zkryptium_verif: generator budget exceeded (requested {}, budget {})",
+                    count, budget
+                );
+            }
+            b.set(Some(budget - count));
+        }
+    });
+    GENERATORS_CREATED.with(|c| c.set(c.get().saturating_add(count)));
+}
+
+/// Called by `CL03CommitmentPublicKey::generate` when it draws its own modulus.
+pub fn record_modulus_factors(p: String, q: String) {
+    LAST_MODULUS_FACTORS.with(|f| *f.borrow_mut() = Some((p, q)));
+}
+
+/// Take the factors (decimal strings) recorded by the last own-modulus generation on this thread.
+pub fn take_modulus_factors() -> Option<(String, String)> {
+    LAST_MODULUS_FACTORS.with(|f| f.borrow_mut().take())
+}
